@@ -175,7 +175,7 @@ class Run:
             for st in spec["states"]
         }
         cls = getattr(self.mod, f"M_{spec['uid']}")
-        listeners = [self.objs[p] for p in spec["providers"] if p not in ("sm", "model")]
+        listeners = [self.objs[p] for p in step.get("listeners", [p for p in spec["providers"] if p not in ("sm", "model")])]
         model = self.objs["model"]
         stored = step.get("stored")
         if stored is not None:
@@ -209,7 +209,11 @@ class Run:
             else:
                 self.sm = cls(model, **kw)
             self._push_attr_guards()
-            rec.emit("step", op="construct", phase="end", engine=type(self.sm._engine).__name__ if hasattr(self.sm, "_engine") else None)
+            ids = {p: id(o) for p, o in self.objs.items() if o is not None}
+            ids["sm"] = id(self.sm)
+            ids["model"] = id(self.sm.model)
+            rec.emit("step", op="construct", phase="end", ids=ids,
+                     engine=type(self.sm._engine).__name__ if hasattr(self.sm, "_engine") else None)
         except BaseException as err:  # noqa: BLE001
             if not isinstance(err, Exception) and type(err).__name__ != "FaultBase":
                 raise
@@ -245,8 +249,18 @@ class Run:
             if tgt is None:
                 class _Target:
                     pass
-                tgt = self.bound_target = _Target()
-                sm.bind_events_to(tgt)
+                first, tgt = _Target(), _Target()
+                declared = [str(e) for e in sm.events]
+                # the first target already has an attribute named like one event: binding skips it
+                # there (documented warning) but must still bind it on the other targets
+                setattr(first, declared[len(declared) // 2], "occupied")
+                self.bound_target = tgt
+                import warnings as _w
+                with _w.catch_warnings():
+                    _w.simplefilter("ignore")
+                    sm.bind_events_to(first, tgt)
+            if event in [str(e) for e in sm.events] and not hasattr(tgt, event):
+                self.rec.emit("note", what="bound-trigger-missing", event=event)
             if hasattr(tgt, event):
                 return getattr(tgt, event)(*args, **kwargs)
             return sm.send(event, *args, **kwargs)
@@ -322,6 +336,54 @@ class Run:
         if getattr(self, "user_model", None) is not None:
             info["model_is_users"] = sm.model is self.user_model
         rec.emit("step", op="probe", phase="end", **info)
+
+    def op_other(self, step):
+        """Interference: activity on ANOTHER instance (same class, own model/listeners) recorded in a
+        separate log and validated here; the main history must be unaffected."""
+        rec = self.rec
+        if self.sm is None:
+            return
+        main, rec.log = rec.log, []
+        main_val = dict(rec.val)
+        act = step["action"]
+        try:
+            if act == "construct":
+                objs = render.provider_objects(self.spec, self.mod)
+                cls = type(self.sm)
+                lst = [objs[p] for p in step.get("listeners", []) if p in objs]
+                if step.get("share"):
+                    lst.append(self.objs[step["share"]])
+                self.other_objs = objs
+                self.other = cls(objs["model"], listeners=lst, allow_event_without_transition=True)
+            elif getattr(self, "other", None) is not None:
+                if act == "send":
+                    res = self.other.send(step["event"], _tok="other")
+                    if inspect.isawaitable(res):
+                        res = yield res
+                elif act == "add_listener":
+                    self.other.add_listener(self.other_objs[step["provider"]])
+        except Exception as err:  # noqa: BLE001
+            pass
+        finally:
+            noise, rec.log = rec.log, main
+            rec.val = main_val
+        other = getattr(self, "other", None)
+        if other is not None:
+            mine = {id(o): p for p, o in self.objs.items() if o is not None and p != step.get("shared_with_main")}
+            shared = id(self.objs[self.shared_provider]) if getattr(self, "shared_provider", None) else None
+            if step.get("share"):
+                self.shared_provider = step["share"]
+                shared = id(self.objs[step["share"]])
+            for e in noise:
+                if e["k"] != "cb_begin":
+                    continue
+                if e.get("mid") == id(self.sm):
+                    rec.emit("note", what="instance-isolation", detail=f"callback {e['cb']} of the main instance ran during activity on another instance")
+                elif e.get("sid") in mine and e.get("sid") != shared and e.get("sid") != id(self.sm):
+                    rec.emit("note", what="instance-isolation", detail=f"{mine[e['sid']]} of the main instance was invoked by another instance ({e['cb']})")
+            rec.emit("note", what="other-activity", action=act, callbacks=sum(1 for e in noise if e["k"] == "cb_begin"))
+        return
+        yield  # pragma: no cover
 
     def op_write(self, step):
         """External writes: directly on the model, or through the low-level setters."""
